@@ -19,7 +19,7 @@ func init() {
 	register(&propCheck{
 		id:    "C02",
 		title: "Data operators compute what the PostScript reference prescribes",
-		explanation: "Decides the table clauses of C02 for every operator registered in the system dictionary: (1) registry completeness — each of the 63 supported operators is bound to a function, the data entries have their prescribed types, the error list is the PLRM's 28 names; (2) operand count — the first stack-depth guard of each operator demands the PLRM operand count and reports stackunderflow; (3) error-name discipline — every error exit is classified by its controlling condition (stack depth → stackunderflow, failed type test → typecheck, operand compared with 0 or a length → rangecheck, with a size limit → limitcheck, failed look-up → undefined / undefinedresource / invalidfont, dictionary-stack depth → dictstackoverflow/underflow, exhausted mark scan → unmatchedmark) and must carry the name of its class, with a frozen list of exceptions; " +
+		explanation: "Decides the table clauses of C02 for every operator registered in the system dictionary: (1) registry completeness — each of the 63 supported operators is bound to a function, the data entries have their prescribed types and every composite one is allocated per interpreter (not a package-level object shared by all interpreters), the error list is the PLRM's 28 names; (2) operand count — each operator, evaluated with fewer operands than the PLRM count, reports stackunderflow, and with that many it does not (helpers evaluated in place); (3) error-name discipline — every error exit is classified by its controlling condition (stack depth → stackunderflow, failed type test → typecheck, operand compared with 0 or a length → rangecheck, with a size limit → limitcheck, failed look-up → undefined / undefinedresource / invalidfont, dictionary-stack depth → dictstackoverflow/underflow, exhausted mark scan → unmatchedmark) and must carry the name of its class, with a frozen list of exceptions; " +
 			"(4) accepted-operand region — for get, put, getinterval, putinterval, index, copy, array, string, dict, repeat the guards on the success path are equivalent (mutual Fourier–Motzkin entailment) to the PLRM region over (operands, lengths), so a guard that is too strict is reported as well as one that is too lax, and narrowing conversions are range-checked; (5) overflow promotion — the overflow predicates of add, sub, mul and abs are evaluated from the source over all pairs of boundary operands (min, min+1, −2…2, max−1, max) in wrapped 64-bit arithmetic and must be true exactly on the pairs whose exact result is not representable; " +
 			"(6) net stack effect — on every normal return the operand-stack height differs from the height at entry by the PLRM figure (for control operators: up to the first execution of a procedure). " +
 			"(7) sharing — the value that dup, def, begin, definefont, defineresource, findfont, currentdict, get, put, index, exch, load, cvx push or store is the operand (or stored object) itself, getinterval pushes a sub-slice of its operand, put/putinterval write through the operand's storage, and no operator pushes or stores a library copy (maps.Clone, slices.Clone, …) of an existing composite; (8) identity — eq/ne hand two dictionaries to the identity test, whose probe protocol (probe key absent from both, insert, look up in the other, delete) is checked step by step, and ne negates while eq does not. " +
@@ -87,6 +87,7 @@ func runC02(c *Ctx) {
 		}
 		c.check(got == want, "OP-REGISTRY", "postscript.makeSystemDict", k+" is a "+want, token.NoPos, got, "system dictionary entry "+k+" has type "+got+", expected "+want)
 	}
+	c.systemDictIsolation()
 	// true/false values
 	for k, want := range map[string]string{"true": "true", "false": "false"} {
 		if e := reg.byKey["systemdict/"+k]; e != nil {
@@ -166,12 +167,27 @@ func (c *Ctx) operandCount(ia *interpAnchors, op string, f *ssa.Function) {
 	construct := op + ": operands demanded"
 	if spec.args <= 0 {
 		if spec.args == 0 {
-			c.check(k <= 0, "OP-ARITY", fname, construct, f.Pos(), "none", fmt.Sprintf("%s takes no operands but demands %d", op, k))
+			okZero := k <= 0
+			if okZero {
+				// no guard in the operator itself; a helper must not demand operands either
+				if ret, why := c.operatorWithDepth(f, 0); why == "" && ret == "stackunderflow" {
+					okZero, k = false, 1
+				}
+			}
+			c.check(okZero, "OP-ARITY", fname, construct, f.Pos(), "none", fmt.Sprintf("%s takes no operands but demands %d", op, k))
 		}
 		return
 	}
+	// decided semantically (evaluation with 0..k operands; helpers are evaluated in place); the
+	// location of "the first guard" decides only where the evaluation stops before a return
+	okEval, decided, detail := c.arityByEvaluation(f, spec.args)
+	if decided {
+		c.check(okEval, "OP-ARITY", fname, construct, f.Pos(), detail,
+			fmt.Sprintf("%s: the PLRM gives it %d operand(s); %s", op, spec.args, detail))
+		return
+	}
 	c.check(k == int64(spec.args) && errName == "stackunderflow", "OP-ARITY", fname, construct, f.Pos(), fmt.Sprintf("len(Stack) < %d → stackunderflow", k),
-		fmt.Sprintf("%s: the PLRM gives it %d operand(s); the first stack-depth guard demands %d and reports `%s`", op, spec.args, k, errName))
+		fmt.Sprintf("%s: the PLRM gives it %d operand(s); the first stack-depth guard demands %d and reports `%s` (%s)", op, spec.args, k, errName, detail))
 }
 
 // (6) net stack effect on normal returns.
@@ -181,64 +197,21 @@ func (c *Ctx) stackEffect(ia *interpAnchors, op string, f *ssa.Function) {
 		return
 	}
 	fname := c.fname(f)
-	fi := newFuncInfo(f)
-	stackField := ""
-	for fld := range fi.fields {
-		if strings.HasSuffix(fld, "Interpreter.Stack") {
-			stackField = fld
-		}
-	}
-	// effect at the end of a block: length of Stack in the block's out-epoch minus the entry length
-	base := fi.vname(canonBase(f.Params[0]))
+	sx := c.newStackFx(f, f.Params[0], map[*ssa.Function]bool{f: true})
+	fi, stackField, base := sx.fi, sx.field, sx.base
 	entry := atom(fmt.Sprintf("len(%s.%s@entry)", base, stackField))
-	var effAt func(b *ssa.BasicBlock, depth int) ([]string, bool)
-	effAt = func(b *ssa.BasicBlock, depth int) ([]string, bool) {
-		if stackField == "" {
-			return []string{"0"}, true
-		}
-		ep := fi.outEpoch[b][stackField]
-		if ep == "" {
+	// effect at the end of a block: length of Stack in the block's out-epoch minus the entry length
+	// (epoch relations of the fact engine, composed through helper calls: ext_f.go)
+	effAt := func(b *ssa.BasicBlock, depth int) ([]string, bool) {
+		es, ok := sx.atBlockEnd(b, depth)
+		if !ok {
 			return nil, false
 		}
-		if strings.HasPrefix(ep, "phi@") || strings.HasPrefix(ep, "call@") {
-			if strings.HasPrefix(ep, "call@") || depth > 6 {
-				return nil, false
-			}
-			// join: union over the predecessors of the block where the phi epoch was created
-			var hb *ssa.BasicBlock
-			var idx int
-			fmt.Sscanf(ep, "phi@%d", &idx)
-			hb = f.Blocks[idx]
-			set := map[string]bool{}
-			for _, p := range hb.Preds {
-				es, ok := effAt(p, depth+1)
-				if !ok {
-					return nil, false
-				}
-				for _, e := range es {
-					set[e] = true
-				}
-			}
-			var out []string
-			for e := range set {
-				out = append(out, e)
-			}
-			sort.Strings(out)
-			return out, true
+		var out []string
+		for _, e := range es {
+			out = append(out, fmt.Sprint(e))
 		}
-		var l Lin
-		if ep == "entry" {
-			l = entry
-		} else if r, ok := fi.rel[ep+"|"+stackField+"|"+base]; ok {
-			l = r
-		} else {
-			return nil, false
-		}
-		d := l.sub(entry)
-		if !d.isConst() {
-			return nil, false
-		}
-		return []string{d.c.RatString()}, true
+		return out, true
 	}
 	// normal returns; for control operators: the state at the first call of executeOne
 	var points []*ssa.BasicBlock
